@@ -5,6 +5,8 @@ SEC = {'container': 'Container', 'image': 'Image', 'volume': 'Volume', 'network'
 TYPES = list(SEC)
 BASE = {'container': ['Image=localhost/img'], 'image': ['Image=quay.io/x/y'], 'volume': [], 'network': [], 'pod': [],
         'kube': ['Yaml=/opt/k.yaml'], 'build': ['ImageTag=localhost/t', 'File=/opt/Containerfile']}
+ALT = {'container': [(['Rootfs=/var/lib/rootfs'], ('Image',)), (['Rootfs=/var/lib/r:O'], ('Image',))],
+       'build': [(['ImageTag=localhost/t', 'SetWorkingDirectory=/opt/ctx'], ('File',))]}
 VALS = ['k=1 k=2', 'a=1 b=2 a=3', '-/dev/null:/dev/n:rwm', '-/dev/null:/dev/n', '/dev/null:/dev/n:rwm', '-/dev/nope:/dev/n:rwm', 'x', 'a b', '"a b"', "'q'", 'yes', 'no', 'true', '0', '', 'k=v', 'k=v l=w', '"k=v w" z=1', 'a:b', 'a:b:c:d', '/abs/p', './rel/p', '../up',
         '%h/x', '10', '1-2/tcp', 'é', 'a\\nb', 'a\\x41', 'auto', 'manual', 'keep-id', 'image', 'x.volume:/d', 'type=bind,source=./s,target=/t',
         'type=tmpfs,dst=/x', 'foo.network', 'host', 'none:opt', 'oneshot', 'notify', 'mixed', 'healthy', 'yaml', 'unit', 'file', 'registry',
@@ -34,7 +36,13 @@ def respell(rnd, k, v):
 
 def unit(rnd, tables, ty, nkeys=10, near_miss=0.03, extras=True):
     keys = tables['supported'][SUP[ty]]
-    lines = ['[' + SEC[ty] + ']'] + list(BASE[ty])
+    base, excl = list(BASE[ty]), ()
+    if ty in ALT and rnd.random() < 0.25:
+        # the other object a unit of this type can be about (a valid unit names exactly one of them)
+        base, excl = rnd.choice(ALT[ty])
+    if excl and rnd.random() < 0.9:
+        keys = [k for k in keys if k not in excl] or keys
+    lines = ['[' + SEC[ty] + ']'] + list(base)
     for _ in range(rnd.randint(0, nkeys)):
         k = rnd.choice(keys)
         if rnd.random() < near_miss:
